@@ -7,7 +7,7 @@ From TS Require Import Model.Str Model.Outcome Model.Types Model.Parse Model.Rec
                        Model.Lang.Common Model.Lang.Decl Model.MultiFile.
 From TS Require Import Spec.C06MultiSpec Spec.C09Spec Spec.C09MultiSpec.
 From TS Require Import Proofs.SortLemmas Proofs.C06 Proofs.C14 Proofs.C14Front Proofs.C14Main Proofs.C06Multi
-                       Proofs.C09Common Proofs.C09Recon.
+                       Proofs.C09Common Proofs.C09Recon Proofs.C09Lang.
 Import ListNotations.
 
 (* ---------------------------------------------------------------- small facts *)
@@ -238,3 +238,90 @@ Proof.
            assert (c9m_serde_renames l b i = true) by (apply c9m_serde_renames_iff; eauto). congruence.
 Qed.
 End Multi.
+
+(* ---------------------------------------------------------------- check_type rewrites the mentioned ids, nothing else *)
+Lemma c9m_check_type_ids cn rn im t :
+  c09_type_ids (check_type cn rn im t) =
+  map (fun fi => (fst fi, match resolve_renamed cn rn im (snd fi) with Some r => r | None => snd fi end)) (c09_type_ids t).
+Proof.
+  induction t using rtype_ind'; cbn [check_type].
+  - destruct (resolve_renamed cn rn im id) eqn:R; cbn [c09_type_ids map fst snd]; rewrite R; reflexivity.
+  - cbn [c09_type_ids map fst snd]. f_equal.
+    rewrite !flat_map_concat_map, map_map, concat_map, map_map. f_equal.
+    apply map_ext_in. intros p Hp. rewrite Forall_forall in H. exact (H p Hp).
+  - exact IHt.
+  - exact IHt.
+  - exact IHt.
+  - cbn [c09_type_ids]. now rewrite map_app, IHt1, IHt2.
+  - exact IHt.
+  - reflexivity.
+Qed.
+
+(* ---------------------------------------------------------------- the type positions of a reconciled crate *)
+Definition c9m_rtp (cn : str) (rn : renames) (im : list imported) (tp : c09_tpos) : c09_tpos :=
+  {| c9t_owner := c9t_owner tp; c9t_generics := c9t_generics tp; c9t_pos := c9t_pos tp;
+     c9t_type := check_type cn rn im (c9t_type tp) |}.
+
+Lemma c9m_tposs_reconciled cn rn pd tp' : In tp' (c09_tposs (reconcile_crate rn cn pd)) ->
+  exists tp, In tp (c09_tposs pd) /\ tp' = c9m_rtp cn rn (p_imports pd) tp.
+Proof.
+  intros H0. unfold c09_tposs, reconcile_crate in H0. cbn [p_structs p_enums p_aliases p_consts] in H0.
+  rewrite !in_app_iff, !in_flat_map, !in_map_iff in H0.
+  destruct H0 as [(s' & Hs' & H)|[(e' & He' & H)|[(a' & <- & Ha')|(c' & <- & Hc')]]].
+  - apply c09_stable_sort_in, in_map_iff in Hs' as (s & <- & Hs). cbn [sfields sid sgenerics] in H.
+    apply in_map_iff in H as (f' & <- & Hf'). apply in_map_iff in Hf' as (f & <- & Hf).
+    eexists. split; [exact (c09_tp_struct pd s f Hs Hf)|reflexivity].
+  - apply c09_stable_sort_in, in_map_iff in He' as (e & <- & He). cbv zeta in H.
+    assert (Esh : enum_shared (match e with
+                               | EUnit sh => EUnit (check_eshared cn rn (p_imports pd) sh)
+                               | EAlgebraic t c sh => EAlgebraic t c (check_eshared cn rn (p_imports pd) sh)
+                               end) = check_eshared cn rn (p_imports pd) (enum_shared e)) by (destruct e; reflexivity).
+    rewrite Esh in H. cbn [check_eshared eid egenerics evariants] in H.
+    apply in_flat_map in H as (v' & Hv' & H). apply in_map_iff in Hv' as (v & <- & Hv).
+    destruct v as [sh|t sh|fs sh]; cbn [check_variant c09_variant_tpos] in H.
+    + destruct H.
+    + destruct H as [<-|[]]. eexists. split; [exact (c09_tp_tuple pd e t sh He Hv)|reflexivity].
+    + apply in_map_iff in H as (f' & <- & Hf'). apply in_map_iff in Hf' as (f & <- & Hf).
+      eexists. split; [exact (c09_tp_anon pd e fs sh f He Hv Hf)|reflexivity].
+  - apply c09_stable_sort_in, in_map_iff in Ha' as (a & <- & Ha).
+    eexists. split; [exact (c09_tp_alias pd a Ha)|reflexivity].
+  - apply c09_stable_sort_in, in_map_iff in Hc' as (c & <- & Hc).
+    eexists. split; [exact (c09_tp_const pd c Hc)|reflexivity].
+Qed.
+
+Lemma c9m_tposs_collect fs tp : In tp (c09_tposs (collect_single fs)) -> exists f, In f fs /\ In tp (c09_tposs f).
+Proof.
+  unfold c09_tposs at 1, collect_single. rewrite fold_add_structs, fold_add_enums, fold_add_aliases, fold_add_consts.
+  cbn [empty_parsed p_structs p_enums p_aliases p_consts app].
+  rewrite !in_app_iff, !in_flat_map, !in_map_iff.
+  intros [(s & Hs & H)|[(e & He & H)|[(a & <- & Ha)|(c & <- & Hc)]]].
+  - apply in_flat_map in Hs as (f & Hf & Hs). exists f. split; [exact Hf|]. unfold c09_tposs. rewrite !in_app_iff, in_flat_map. left. eauto.
+  - apply in_flat_map in He as (f & Hf & He). exists f. split; [exact Hf|]. unfold c09_tposs. rewrite !in_app_iff, !in_flat_map. right. left. eauto.
+  - apply in_flat_map in Ha as (f & Hf & Ha). exists f. split; [exact Hf|]. unfold c09_tposs. rewrite !in_app_iff, !in_map_iff. right. right. left. eauto.
+  - apply in_flat_map in Hc as (f & Hf & Hc). exists f. split; [exact Hf|]. unfold c09_tposs. rewrite !in_app_iff, !in_map_iff. right. right. right. eauto.
+Qed.
+
+(* ---------------------------------------------------------------- the theorem *)
+Theorem c9m_multi_reconciled_mentions (ho : list imported -> list imported) (l : list (str * parsed)) :
+  oracle_ok ho -> c9m_ids_wf l = true ->
+  forall b pd', In (b, pd') (multi_crates ho l) ->
+  forall tp' form i', In tp' (c09_tposs pd') -> In (form, i') (c09_type_ids (c9t_type tp')) ->
+  exists tp i,
+    c9t_owner tp' = c9t_owner tp /\ c9t_generics tp' = c9t_generics tp /\ c9t_pos tp' = c9t_pos tp /\
+    In (form, i) (c09_type_ids (c9t_type tp)) /\
+    (exists f, In (b, f) l /\ In tp (c09_tposs f)) /\
+    (forall f, In (b, f) l -> In tp (c09_tposs f) ->
+       c9m_known l b f (c9t_generics tp) i = None ->
+       forall s, c9m_spelling l b f (c9t_generics tp) i = Some s -> i' = s).
+Proof.
+  intros Hho Hwf b pd' Hin tp' form i' Htp' Hi'.
+  unfold multi_crates, reconcile_aliases in Hin. apply in_map_iff in Hin as ([k pd] & E & Hpd). cbn [fst snd] in E. injection E as <- <-.
+  apply c9m_tposs_reconciled in Htp' as (tp & Htp & ->). cbn [c9m_rtp c9t_type] in Hi'.
+  rewrite c9m_check_type_ids in Hi'. apply in_map_iff in Hi' as ([form0 i] & E & Hi). cbn [fst snd] in E. injection E as <- <-.
+  pose proof Hpd as Hpd0. apply order_imports_entry in Hpd0 as (p & Hp & Epd).
+  assert (Htp0 : In tp (c09_tposs p)) by (rewrite Epd in Htp; exact Htp).
+  apply collect_entry in Hp as [_ ->]. apply c9m_tposs_collect in Htp0 as (f0 & Hf0 & Htpf0).
+  exists tp, i. split; [reflexivity|]. split; [reflexivity|]. split; [reflexivity|]. split; [exact Hi|]. split.
+  - exists f0. split; [apply c9m_files_in; exact Hf0|exact Htpf0].
+  - intros f Hf Htpf Hk s Hs. exact (c9m_resolved l ho Hho k pd f _ i s Hwf Hpd Hf Hk Hs).
+Qed.
